@@ -28,7 +28,7 @@ CLASSES = [
     "rekey", "rekey_collision", "type_only_rekey", "move", "clone", "remove", "remove_then_reinit", "shallow_copy",
     "shallow_copy_follows", "pickle_independent", "deepcopy_independent", "cache_update", "stray_planted",
     "two_projects", "update_sp_conflict", "move_collision", "clone_collision", "move_uninitialised",
-    "stray_id_named_file", "rekey_onto_id_named_file", "stale_handle_resynced_by_remove", "gone_id_reopened", "gone_id_unknown",
+    "stray_id_named_file", "rekey_onto_id_named_file", "stale_handle_resynced_by_remove", "gone_id_reopened", "gone_id_unknown", "stale_handle_observed", "lazy_handle_left_alone",
     "doc_assigned_live_view_same_job", "doc_assigned_live_view_other_job",
 ]
 ASSUMPTIONS = [
@@ -57,7 +57,7 @@ OP = st.one_of(
     fd(op="new_init", p=P, sp=sps),
     fd(op="new_init", p=P, sp=sps),
     fd(op="new_sp", p=P, sp=sps),
-    fd(op="new_id", p=P, k=H, how=st.sampled_from(["id", "cursor"])),
+    fd(op="new_id", p=P, k=H, how=st.sampled_from(["id", "cursor"]), lazy=st.booleans()),
     fd(op="new_gone_id", p=P, k=H),
     fd(op="copy", h=H),
     fd(op="deepcopy", h=H),
@@ -161,6 +161,16 @@ CONSTRUCTED = [
     {"two_projects": False, "ops": [
         {"op": "new_init", "p": 0, "sp": {"a": 0}}, {"op": "write", "h": 0, "name": "f.txt", "data": "x"}, {"op": "plant_idfile", "p": 0, "sp": {"a": 1}},
         {"op": "sp_set", "h": 0, "k": "a", "v": 1}, {"op": "new_id", "p": 0, "k": 0, "how": "id"}, {"op": "touch_sp", "h": 1}]},
+    # a shallow copy of a lazy handle (opened by id / from a cursor in a new session, never looked at): both follow a re-key
+    {"two_projects": False, "ops": [
+        {"op": "new_init", "p": 0, "sp": {"a": 0}}, {"op": "doc_set", "h": 0, "k": "x", "v": 1}, {"op": "new_project", "p": 0},
+        {"op": "new_id", "p": 0, "k": 0, "how": "id", "lazy": True}, {"op": "copy", "h": 1}, {"op": "sp_set", "h": 1, "k": "b", "v": 1},
+        {"op": "touch_sp", "h": 2}, {"op": "doc_set", "h": 2, "k": "y", "v": 3}, {"op": "new_project", "p": 0},
+        {"op": "new_id", "p": 0, "k": 0, "how": "cursor", "lazy": True}, {"op": "copy", "h": 3}, {"op": "sp_set", "h": 4, "k": "c", "v": 2}, {"op": "touch_sp", "h": 3}]},
+    # a lazy handle (opened by id, nothing cached) looks at its state point while the job is gone, and again once it is back
+    {"two_projects": False, "ops": [
+        {"op": "new_init", "p": 0, "sp": {"a": 1, "b": 2}}, {"op": "new_project", "p": 0}, {"op": "new_id", "p": 0, "k": 0, "how": "id", "lazy": True},
+        {"op": "remove", "h": 0}, {"op": "touch_sp", "h": 1}, {"op": "init", "h": 0}, {"op": "touch_sp", "h": 1}, {"op": "touch_sp", "h": 0}]},
     # the document assigned from the live document of a second handle on the same job (and from another job's)
     {"two_projects": False, "ops": [
         {"op": "new_init", "p": 0, "sp": {"a": 0}}, {"op": "doc_update", "h": 0, "m": {"x": [1, 2], "y": {"y": 1}}}, {"op": "new_id", "p": 0, "k": 0, "how": "id"},
